@@ -596,6 +596,7 @@ namespace
       const bool sph_rows = s.HasMember("sph") && s["sph"].IsBool() && s["sph"].GetBool();
       // "let": [[name, term], ...] evaluated once, in order; "rowlet": the same per row, after the row's
       // cells have been bound to $0, $1, ...; a rowlet value is appended to the row as a further cell
+      std::map<std::string, double> previous;       // monotone checks: last value per (check, group)
       env().clear();
       if (s.HasMember("let"))
         for (auto &b : s["let"].GetArray()) env()[b[0].GetString()] = eval(b[1]);
@@ -693,6 +694,24 @@ namespace
                   else
                     want = inside ? eval(e["inside"]) : eval(e["outside"]);
                   ok = at < static_cast<long>(out.size()) && out[at] == want;
+                }
+              else if (k == "monotone")
+                {
+                  // along consecutive rows with the same group cell the value must not decrease (dir +1) / not increase (dir -1)
+                  const std::string key = std::to_string(at) + "/" + e["dir"].GetString() + "/" + fmt(cell);
+                  const double slack = (e.HasMember("slack") ? eval(e["slack"]) : 1e-9);
+                  ok = true;
+                  if (at < static_cast<long>(out.size()))
+                    {
+                      auto it = previous.find(key);
+                      if (it != previous.end())
+                        {
+                          const double tol = slack * std::max(1., std::max(std::fabs(it->second), std::fabs(out[at])));
+                          ok = std::string(e["dir"].GetString()) == "up" ? out[at] >= it->second - tol : out[at] <= it->second + tol;
+                          want = it->second;
+                        }
+                      previous[key] = out[at];
+                    }
                 }
               else if (k == "between")
                 {
